@@ -1152,10 +1152,39 @@ pub fn case(tier: &str, seed: u64, case: u64) -> CaseResult {
 		}
 		if let Some(vs) = r["violations"].as_array() {
 			if let Some(v) = vs.first() {
+				let key = v[0].as_str().unwrap_or("").to_string();
+				let recorded: Vec<u32> = serde_json::from_value(r["choices"].clone()).unwrap_or_default();
+				let mut trial = 0;
+				// a child that died leaves no schedule to shrink
+				let minimal = if recorded.is_empty() {
+					recorded.clone()
+				} else {
+					crate::sim::minimise_choices(
+						&recorded,
+						|cand| {
+							trial += 1;
+							let c = cand.to_vec();
+							match fork_run(&format!("db-c{}min{}", case, trial), |d| concurrent_child(s, d, Some(c))) {
+								Ok(r2) => r2["violations"].as_array().map(|a| a.iter().any(|x| x[0].as_str() == Some(key.as_str()))).unwrap_or(false),
+								Err(_) => false,
+							}
+						},
+						40,
+					)
+				};
+				let nonzero = |c: &[u32]| c.iter().filter(|x| **x != 0).count();
 				res.violations.push(Violation {
-					key: format!("C18:{}", v[0].as_str().unwrap_or("")),
-					what: format!("{} [schedule seed {}; {} scheduling points, {} switches]", v[1].as_str().unwrap_or(""), s, r["points"], r["switches"]),
-					replay: json!({"engine": "dbsim", "property": "C18", "mode": "concurrent", "seed": s, "choices": r["choices"]}),
+					key: format!("C18:{}", key),
+					what: format!(
+						"{} [schedule seed {}; {} scheduling points, {} switches; schedule minimised from {} to {} forced decisions]",
+						v[1].as_str().unwrap_or(""),
+						s,
+						r["points"],
+						r["switches"],
+						nonzero(&recorded),
+						nonzero(&minimal)
+					),
+					replay: json!({"engine": "dbsim", "property": "C18", "mode": "concurrent", "seed": s, "choices": minimal}),
 				});
 				res.wall_s = t0.elapsed().as_secs_f64();
 				return res;
